@@ -408,15 +408,25 @@ func c16LockPath(c *Ctx) {
 		if fn.Pkg != sp || c.isTestFunc(fn) {
 			continue
 		}
+		// nor from the spelling of the data file's path: the same board opened through another path (a symlinked directory,
+		// a bind mount, a relative name) must still be locked by the same file
+		dataPath := map[ssa.Value]bool{}
+		for _, open := range ssax.CallsTo(fn, "os.OpenFile", "os.Open", "os.Create") {
+			dataPath[open.Common().Args[0]] = true
+			dataPath[ssax.Resolve(open.Common().Args[0])] = true
+		}
+		isData := func(v ssa.Value) bool { return dataPath[v] }
 		for _, call := range ssax.CallsTo(fn, "github.com/juju/fslock.New") {
 			n++
 			if derivesFrom(call.Common().Args[0], env, 0, map[ssa.Value]bool{}) {
 				bad = append(bad, fn.Name()+" at "+c.PosOf(call)+": "+ssax.Path(call.Common().Args[0]))
+			} else if derivesFrom(call.Common().Args[0], isData, 0, map[ssa.Value]bool{}) {
+				bad = append(bad, fn.Name()+" at "+c.PosOf(call)+": "+ssax.Path(call.Common().Args[0])+" (computed from the data file's path: writers that open the same board under different path spellings take different locks)")
 			}
 		}
 	}
 	sort.Strings(bad)
-	r.Check(n >= 1 && len(bad) == 0, "C16/R1", "file_storage:lock-path-fixed", "the lock file path is the caller's argument or a constant, not derived from the process environment", "",
+	r.Check(n >= 1 && len(bad) == 0, "C16/R1", "file_storage:lock-path-fixed", "the lock file path is the caller's argument or a constant, not derived from the process environment or from the data file's path", "",
 		sprintf("%d fslock.New calls; environment-dependent: %s", n, strings.Join(bad, "; ")))
 }
 
